@@ -51,6 +51,25 @@ for mn in sorted(k for k, v in sys.modules.items() if k.startswith("chartparse."
 
 IMMUTABLE = (int, str, float, bool, type(None), tuple, frozenset, bytes, complex)
 loaded = sorted(k for k, v in sys.modules.items() if (k == "chartparse" or k.startswith("chartparse.")) and v is not None)
+def plain(v, depth=0):
+    """repr of a value made of plain data only (numbers, strings, None, and lists / tuples / dicts / sets of such),
+    else None: the part of a class's state that can be compared across interpreters"""
+    if isinstance(v, (int, str, float, bool, type(None), bytes)):
+        return repr(v)
+    if depth > 4:
+        return None
+    if isinstance(v, (list, tuple)):
+        parts = [plain(x, depth + 1) for x in v]
+        return None if any(p_ is None for p_ in parts) else "%s[%s]" % (type(v).__name__, ", ".join(parts))
+    if isinstance(v, (set, frozenset)):
+        parts = [plain(x, depth + 1) for x in v]
+        return None if any(p_ is None for p_ in parts) else "%s{%s}" % (type(v).__name__, ", ".join(sorted(parts)))
+    if isinstance(v, dict):
+        parts = [(plain(k, depth + 1), plain(x, depth + 1)) for k, x in v.items()]
+        return None if any(a is None or b is None for a, b in parts) else "dict{%s}" % ", ".join("%s: %s" % ab for ab in parts)
+    return None
+
+
 table, by_id = {}, {}
 for mn in loaded:
     mod = sys.modules[mn]
@@ -59,6 +78,15 @@ for mn in loaded:
         if name.startswith("_"):
             continue
         ns[name] = [type(obj).__name__, getattr(obj, "__module__", None) if not isinstance(obj, IMMUTABLE) else None, getattr(obj, "__qualname__", getattr(obj, "__name__", None)) if not isinstance(obj, IMMUTABLE) else repr(obj)[:80]]
+        if isinstance(obj, type) and str(getattr(obj, "__module__", "")).startswith("chartparse"):
+            # plain-data class attributes, private ones included (not dunders): part of "the same object"
+            attrs = {}
+            for an, av in sorted(vars(obj).items()):
+                if not (an.startswith("__") and an.endswith("__")):
+                    pv = plain(av)
+                    if pv is not None:
+                        attrs[an] = pv[:400]
+            ns[name].append(attrs)
         if not isinstance(obj, IMMUTABLE):
             by_id.setdefault(id(obj), []).append(mn + ":" + name)
     table[mn] = ns
